@@ -22,15 +22,42 @@ Flt(n, k) == [t |-> "flt", q |-> <<n, k>>]
 Str(s) == [t |-> "str", v |-> s]
 Arr(xs) == [t |-> "arr", v |-> xs]
 Obj(m) == [t |-> "obj", m |-> m]
-ValueTags == {"null", "bool", "int", "flt", "str", "arr", "obj"}
-ScalarTags == {"null", "bool", "int", "flt", "str"}
+ValueTags == {"null", "bool", "int", "bigint", "flt", "str", "arr", "obj"}
+ScalarTags == {"null", "bool", "int", "bigint", "flt", "str"}
+\* integers outside TLC's 32-bit range are carried as sign + decimal digit sequence (as spec/JsonValue.tla does):
+\* [t |-> "bigint", neg |-> B, d |-> <<digits, no leading zero>>]; the harness uses it exactly for |n| > 2^30
 
 \* ------------------------------------------------------------------ dyadic rationals <<n, k>> = n / 2^k
 RECURSIVE Pow2(_)
 Pow2(k) == IF k <= 0 THEN 1 ELSE 2 * Pow2(k - 1)
 RECURSIVE QNorm(_)
 QNorm(q) == IF q[2] > 0 /\ q[1] % 2 = 0 THEN QNorm(<<q[1] \div 2, q[2] - 1>>) ELSE q
-IsNum(v) == v.t = "int" \/ (v.t = "flt" /\ Len(v.q) = 2)
+IsNum(v) == v.t = "int" \/ (v.t = "flt" /\ Len(v.q) = 2)          \* a number the dyadic arithmetic can handle
+IsBig(v) == v.t = "bigint"
+IsInt(v) == v.t \in {"int", "bigint"}
+RECURSIVE DigitSeq(_)
+DigitSeq(n) == IF n < 10 THEN <<n>> ELSE Append(DigitSeq(n \div 10), n % 10)
+\* sign and magnitude of any integer value
+INeg(v) == IF v.t = "int" THEN v.v < 0 ELSE v.neg
+IMag(v) == IF v.t = "int" THEN DigitSeq(IF v.v < 0 THEN -v.v ELSE v.v) ELSE v.d
+RECURSIVE SeqLt(_, _)
+SeqLt(x, y) == IF x = <<>> THEN FALSE ELSE IF x[1] # y[1] THEN x[1] < y[1] ELSE SeqLt(Tail(x), Tail(y))
+MagLt(x, y) == IF Len(x) # Len(y) THEN Len(x) < Len(y) ELSE SeqLt(x, y)
+IsZeroI(v) == IMag(v) = <<0>>
+\* exact order of two integers (int/int comparison is never approximate)
+ILt(a, b) == IF IsZeroI(a) /\ IsZeroI(b) THEN FALSE
+             ELSE IF INeg(a) /\ ~INeg(b) THEN TRUE ELSE IF ~INeg(a) /\ INeg(b) THEN FALSE
+             ELSE IF INeg(a) THEN MagLt(IMag(b), IMag(a)) ELSE MagLt(IMag(a), IMag(b))
+\* does a value contain a big integer / a float somewhere (mixed int/float comparison of big values is not described)
+RECURSIVE HasBig(_), HasFlt(_)
+HasBig(v) == CASE v.t = "bigint" -> TRUE
+               [] v.t = "arr" -> \E j \in 1..Len(v.v) : HasBig(v.v[j])
+               [] v.t = "obj" -> \E x \in DOMAIN v.m : HasBig(v.m[x])
+               [] OTHER -> FALSE
+HasFlt(v) == CASE v.t = "flt" -> TRUE
+               [] v.t = "arr" -> \E j \in 1..Len(v.v) : HasFlt(v.v[j])
+               [] v.t = "obj" -> \E x \in DOMAIN v.m : HasFlt(v.m[x])
+               [] OTHER -> FALSE
 Q(v) == IF v.t = "int" THEN <<v.v, 0>> ELSE v.q
 Max(a, b) == IF a > b THEN a ELSE b
 QAdd(a, b) == LET k == Max(a[2], b[2]) IN QNorm(<<a[1] * Pow2(k - a[2]) + b[1] * Pow2(k - b[2]), k>>)
@@ -158,8 +185,8 @@ Ok(v, root, at) == [k |-> "ok", v |-> v, isAt |-> FALSE, root |-> root, at |-> a
 
 \* strict functions on evaluated argument values: result [k |-> "ok", v |-> value] | ErrR | AnyR
 Arith(f, vs) ==
-  IF \E j \in 1..Len(vs) : ~IsNum(vs[j]) /\ ~(vs[j].t = "flt") THEN ErrR   \* "If any of the arguments are not a number an error is raised"
-  ELSE IF \E j \in 1..Len(vs) : ~IsNum(vs[j]) THEN AnyR                      \* a float outside the dyadic universe
+  IF \E j \in 1..Len(vs) : ~IsNum(vs[j]) /\ vs[j].t \notin {"flt", "bigint"} THEN ErrR   \* "If any of the arguments are not a number an error is raised"
+  ELSE IF \E j \in 1..Len(vs) : ~IsNum(vs[j]) THEN AnyR                      \* a float outside the dyadic universe, a big integer (overflow is not described)
   ELSE IF vs = <<>> THEN AnyR                                               \* the sum/product of nothing is not described
   ELSE LET RECURSIVE Fold(_, _, _)
            Fold(acc, isInt, j) ==
@@ -185,7 +212,12 @@ Compare(f, vs) ==
                      [] f = "gt" -> (IF nums THEN QLt(Q(b), Q(a)) ELSE SLt(b.v, a.v))
                      [] f = "lte" -> (IF nums THEN ~QLt(Q(b), Q(a)) ELSE ~SLt(b.v, a.v))
                      [] f = "gte" -> (IF nums THEN ~QLt(Q(a), Q(b)) ELSE ~SLt(a.v, b.v))
-  IN IF vs = <<>> \/ ~(nums \/ strs) THEN AnyR    \* mixed or other kinds: the descriptions are silent
+      ints == \A j \in 1..Len(vs) : IsInt(vs[j])
+      irel(a, b) == CASE f = "lt" -> ILt(a, b) [] f = "gt" -> ILt(b, a) [] f = "lte" -> ~ILt(b, a) [] f = "gte" -> ~ILt(a, b)
+  IN IF vs = <<>> THEN AnyR
+     \* integers are compared exactly, whatever their size; a big integer against a float is not described
+     ELSE IF ints THEN [k |-> "ok", v |-> Bool(\A i, j \in 1..Len(vs) : i < j => irel(vs[i], vs[j]))]
+     ELSE IF ~(nums \/ strs) THEN AnyR    \* mixed or other kinds: the descriptions are silent
      ELSE [k |-> "ok", v |-> Bool(\A i, j \in 1..Len(vs) : i < j => rel(vs[i], vs[j]))]
 
 Apply(f, vs) ==
@@ -196,16 +228,21 @@ Apply(f, vs) ==
          THEN LET RECURSIVE Cat(_)
                   Cat(j) == IF j > n THEN <<>> ELSE vs[j].v \o Cat(j + 1) IN V(Str(Cat(1)))
          ELSE IF \E j \in 1..n : vs[j].t = "str"
-              THEN (IF \E j \in 1..n : vs[j].t \notin {"str", "int", "flt"} THEN ErrR ELSE AnyR)  \* number formatting is not described
+              THEN (IF \E j \in 1..n : vs[j].t \notin {"str", "int", "bigint", "flt"} THEN ErrR ELSE AnyR)  \* number formatting is not described
               ELSE Arith(f, vs)
     [] f \in {"dif", "product", "quotient"} -> Arith(f, vs)
     [] f = "mod" -> IF n # 2 THEN AnyR
-                    ELSE IF vs[1].t # "int" \/ vs[2].t # "int" THEN ErrR    \* "An error is raised if the wrong argument types are given"
+                    ELSE IF ~IsInt(vs[1]) \/ ~IsInt(vs[2]) THEN ErrR        \* "An error is raised if the wrong argument types are given"
+                    ELSE IF IsBig(vs[1]) \/ IsBig(vs[2]) THEN AnyR
                     ELSE IF vs[2].v <= 0 \/ vs[1].v < 0 THEN AnyR           \* sign conventions / zero modulus are not described
                     ELSE V(IntV(vs[1].v % vs[2].v))
     [] f \in {"lt", "lte", "gt", "gte"} -> Compare(f, vs)
-    [] f = "equal" -> V(Bool(\A j \in 1..n : VEq(vs[1], vs[j])))
-    [] f = "neq" -> V(Bool(~(\A j \in 1..n : VEq(vs[1], vs[j]))))
+    \* deep equality; integers exactly (also inside lists and maps); int against float by value for the small universe,
+    \* a BIG integer against a float is left open (the description does not say how they are compared)
+    [] f = "equal" -> IF (\E j \in 1..n : HasBig(vs[j])) /\ (\E j \in 1..n : HasFlt(vs[j])) THEN AnyR
+                      ELSE V(Bool(\A j \in 1..n : VEq(vs[1], vs[j])))
+    [] f = "neq" -> IF (\E j \in 1..n : HasBig(vs[j])) /\ (\E j \in 1..n : HasFlt(vs[j])) THEN AnyR
+                    ELSE V(Bool(~(\A j \in 1..n : VEq(vs[1], vs[j]))))
     [] f = "not" -> IF n = 1 /\ vs[1].t = "bool" THEN V(Bool(~vs[1].v)) ELSE AnyR
     [] f = "and" -> IF \E j \in 1..n : vs[j].t \notin {"bool", "null"} THEN AnyR  \* error or short-circuit: both reasonable
                     ELSE V(Bool(\A j \in 1..n : vs[j].t = "bool" /\ vs[j].v))
@@ -215,7 +252,7 @@ Apply(f, vs) ==
     [] f = "map?" -> IF n = 1 THEN V(Bool(vs[1].t = "obj")) ELSE AnyR
     [] f = "array?" -> IF n = 1 THEN V(Bool(vs[1].t = "arr")) ELSE AnyR
     [] f = "string?" -> IF n = 1 THEN V(Bool(vs[1].t = "str")) ELSE AnyR
-    [] f = "num?" -> IF n = 1 THEN V(Bool(vs[1].t \in {"int", "flt"})) ELSE AnyR
+    [] f = "num?" -> IF n = 1 THEN V(Bool(vs[1].t \in {"int", "bigint", "flt"})) ELSE AnyR
     [] f = "bool?" -> IF n = 1 THEN V(Bool(vs[1].t = "bool")) ELSE AnyR
     [] f = "null?" -> IF n = 1 THEN V(Bool(vs[1].t = "null")) ELSE AnyR
     [] f = "size" -> IF n # 1 THEN AnyR
@@ -243,7 +280,7 @@ SortBy(list, p) ==
       Ins(x, xs) == IF xs = <<>> THEN <<x>> ELSE IF lt(x, xs[1]) THEN <<x>> \o xs ELSE <<xs[1]>> \o Ins(x, Tail(xs))
       Srt(m) == IF m = 0 THEN <<>> ELSE Ins(list[m], Srt(m - 1))
   IN IF n < 2 THEN AnyR                                          \* nothing is compared: whether the key type is checked is open
-     ELSE IF \E j \in 1..n : ks[j] # Missing /\ ks[j].t = "other" THEN AnyR
+     ELSE IF \E j \in 1..n : ks[j] # Missing /\ ks[j].t \in {"other", "bigint"} THEN AnyR
      ELSE IF ~(allNum \/ allStr) THEN ErrR
      ELSE IF \E i, j \in 1..n : i < j /\ VEq(ks[i], ks[j]) /\ ~VEq(list[i], list[j]) THEN AnyR   \* order of equal keys is open
      ELSE [k |-> "ok", v |-> Arr(Srt(n))]
